@@ -104,6 +104,8 @@ Full statement / proved / missing
 * `C17_liskov_attributes` — proved, along the WHOLE chain: for every type of an accepted list of definitions and every ancestor
                          (any depth), each attribute of the ancestor is by name an attribute of the subtype, and the
                          subtype's declaration admits only values the ancestor's admits (`C17_chain_env`: the invariant).
+* `C17_get_typed`, `C17_get_liskov` — proved: `Get` of a positional attribute of a `Valid` instance is an instance of the attribute's
+                         type, hence of the type ANY ancestor declares for that attribute.
 * the attribute-type alphabet is Integer, String, Boolean, Float, Any, Undef, Optional[T], NotUndef[T], Variant[A,B], Array[T]
   (`inst`, `asg`, `tyInit` tied to pcore by the ops `tinst` / `asg` on every pair of 85 type expressions).
 * member functions / interfaces — inside the model (Model/ObjectFuncs: `isInterface`, `allFuncs`, `memberFn`, `implements`,
@@ -1641,6 +1643,55 @@ theorem C17_laws_env {ds : List Def} {env : List OType} (h : defineAll [] ds = .
     obtain ⟨o', h1, -, h2, h3, -⟩ := C17_inithash hv (by rw [hto]; exact hw) hvo
     rw [hto] at h1
     exact ⟨o', h1, h2, h3⟩
+
+/-! ### `Get` is well-typed — through any ancestor's declaration -/
+
+/-- what `Get` answers for a positional attribute of a `Valid` instance is an instance of the attribute's type: the stored
+    value (checked by the dispatcher) or the implicit one (a well-typed default, or undef for a given_or_derived attribute) -/
+theorem C17_get_typed {t : OType} (hw : WF t) (hty : TypeTyped t) {o : Obj} (ho : o.typ = t) (hv : Valid o)
+    {i : Nat} {a : Attr} (ha : (posAttrs t)[i]? = some a) :
+    ∃ v, get o a.name = .ok (some v) ∧ inst a.ty v = true := by
+  obtain ⟨t', vs⟩ := o
+  simp only at ho
+  subst ho
+  have hreq : requiredCount t' ≤ vs.length := hv.req
+  rw [get_pos hw.nodup hw.tailOpt hreq ha, den_get ha]
+  refine ⟨_, rfl, ?_⟩
+  cases hvi : vs[i]? with
+  | some v => simpa using allInst_get hv.inst ha hvi
+  | none =>
+    simp only [Option.getD_none]
+    have hge : vs.length ≤ i := by
+      rcases Nat.lt_or_ge i vs.length with hlt | hge
+      · rw [List.getElem?_eq_getElem hlt] at hvi; cases hvi
+      · exact hge
+    have hopt : a.optional = true := hw.tailOpt i a ha (by omega)
+    obtain ⟨hval, hgod⟩ := hty a (posAttrs_mem_each (List.mem_of_getElem? ha))
+    unfold Attr.implicitT
+    by_cases hk : a.kind = .givenOrDerived
+    · simp [hk, hgod hk]
+    · have hkb : (a.kind == Kind.givenOrDerived) = false := by simpa using hk
+      unfold Attr.optional Attr.hasValue at hopt
+      simp only [hkb, Bool.false_or] at hopt
+      obtain ⟨x, hx⟩ := Option.isSome_iff_exists.mp hopt
+      simp [hkb, hx, hval x hx]
+
+/-- … and so, read through ANY ancestor's declaration: for a type `t` of an accepted list of definitions, an ancestor `p`
+    and an attribute `a` of `p`, the attribute of that name in `t` — when it has a position — reads back, on every instance
+    either constructor makes, a value that `p`'s declaration of `a` admits -/
+theorem C17_get_liskov {ds : List Def} {env : List OType} (h : defineAll [] ds = .ok env)
+    (hds : ∀ d ∈ ds, DefShape d) {t p : OType} (ht : t ∈ env) (hp : p <:+ t) {a : Attr} (ha : a ∈ eachAttribute p)
+    {o : Obj} (ho : o.typ = t) (hv : Valid o) :
+    ∃ a' ∈ eachAttribute t, a'.name = a.name ∧
+      ∀ i : Nat, (posAttrs t)[i]? = some a' → ∃ v, get o a.name = .ok (some v) ∧ inst a.ty v = true := by
+  obtain ⟨a', ha', hn, hs⟩ := C17_liskov_attributes h hds ht hp a ha
+  refine ⟨a', ha', hn, ?_⟩
+  intro i hi
+  have hw : WF t := (C17_wf_env (env0 := []) (by simp) hds h t ht).2
+  have hty : TypeTyped t := C17_typed_env (env0 := []) (by simp) h t ht
+  obtain ⟨v, hg, hi'⟩ := C17_get_typed hw hty ho hv hi
+  rw [hn] at hg
+  exact ⟨v, hg, hs v hi'⟩
 
 /-! ### the definition re-created from the InitHash of the type it defined -/
 
